@@ -154,6 +154,16 @@ func (i *initialStatus) process() (*initialStatusResult, error) {
 				aggLayerLastCert.ID()),
 			cert: aggLayerLastCert}, nil
 	}
+	// CASE 3.3: aggsender stopped between sending to agglayer the replacement of an InError certificate
+	// (same height, new ID) and storing it to the local storage
+	if aggLayerLastCert.Height == localLastCert.Height && localLastCert.Status.IsInError() &&
+		localLastCert.CertificateID != aggLayerLastCert.CertificateID {
+		// we need to store the certificate in the local storage.
+		return &initialStatusResult{action: InitialStatusActionInsertNewCert,
+			message: fmt.Sprintf("agglayer have a replacement for InError cert %s, storing cert: %s",
+				localLastCert.ID(), aggLayerLastCert.ID()),
+			cert: aggLayerLastCert}, nil
+	}
 	// CASE 4: AggSender and AggLayer are not on the same page
 	// note: we don't need to check individual fields of the certificate
 	// because CertificateID is a hash of all the fields
